@@ -36,6 +36,7 @@ class Program:
         s.resolve_cache = {}
         s.pure = set()         # names of pure scalar predicates to summarise
         s.promoted_cache = {}
+        s.rlimit = 0            # z3 resource limit per query (0 = none); exceeding it -> unknown -> inconclusive
         s.last_autoderef = 0
         s.memo_str = set()     # pure crate functions of one &str whose result is memoised within a path (same text object)
         s.observers = {}       # MIR function name -> callback(it, args, result) (harness ghost state)
@@ -209,8 +210,11 @@ class Program:
                         return s.index[k]
             im = re.match(r'Into<(.*)>$', trl)
             if im:
-                k = '<%s as From<%s>>::from' % (s.short_ty(im.group(1)), sty)
-                if k in s.index: return s.index[k]
+                alias = {'Ratio<i32>': 'Rational32', 'Ratio<i64>': 'Rational64', 'Ratio<BigInt>': 'BigRational'}
+                srcs = [sty] + ([alias[ty]] if ty in alias else [])
+                for src in srcs:
+                    k = '<%s as From<%s>>::from' % (s.short_ty(im.group(1)), src)
+                    if k in s.index: return s.index[k]
             return None
         m = re.fullmatch(r'(?:[\w:]+::)?<impl ([\w:]+)>::(\w+)', c)
         if m:
@@ -255,11 +259,13 @@ class Interp:
             sh = _SHARED.get(id(prog))
             if sh is None:
                 sh = _SHARED[id(prog)] = {'solver': z3.Solver(), 'trail': []}
+                if prog.rlimit: sh['solver'].set('rlimit', prog.rlimit)
             s.shared = sh
             s.solver = sh['solver']
         else:
             s.shared = None
             s.solver = z3.Solver()
+            if prog.rlimit: s.solver.set('rlimit', prog.rlimit)
         s.events = []           # keys of all constraint events of this run (see _flush)
         s.pc = []               # every constraint of this path, in order (paranoid re-checks, summaries)
         s.paranoid = False
@@ -544,6 +550,9 @@ class Interp:
         if op == 'BitAnd': return A & B
         if op == 'BitOr': return A | B
         if op == 'BitXor': return A ^ B
+        if op in ('Div', 'Rem') and is_sym(a) and not is_sym(b) and b != 0 and (abs(b) & (abs(b) - 1)) != 0:
+            q, r = s.div_lemma(A, b, w, signed)
+            return q if op == 'Div' else r
         if op == 'Div': return (A / B) if signed else z3.UDiv(A, B)
         if op == 'Rem': return z3.SRem(A, B) if signed else z3.URem(A, B)
         if op == 'Cmp':
@@ -552,6 +561,28 @@ class Interp:
             if s.branch(A == B): return mk_ordering(0)
             return mk_ordering(1)
         raise Unsupported('binop ' + op)
+
+    def div_lemma(s, A, b, w, signed):
+        """A / b and A % b for symbolic A and a CONCRETE divisor b that is not a power of two, through the division lemma
+        instead of a divider circuit (which the SAT back end cannot reason about): fresh q, r with  A = q*b + r,
+        |r| < |b|, r = 0 or sign(r) = sign(A)  -- the unique solution, i.e. exactly the machine operation."""
+        cache = s.ghost.setdefault('_divlemma', {})
+        ck = (A.get_id(), b, w, signed)
+        if ck in cache: return cache[ck][1], cache[ck][2]
+        k = len(s.taken)
+        q = z3.BitVec('divq%d_%d_%d' % (w, k, s.fresh_n), w); r = z3.BitVec('divr%d_%d_%d' % (w, k, s.fresh_n), w)
+        s.fresh_n += 1
+        x = abs(b).bit_length() + 2          # extra bits: q*b + r is computed without wrap-around
+        if signed:
+            e = lambda v: z3.SignExt(x, v)
+            Bc = z3.BitVecVal(b, w + x)
+            s.assume(z3.And(e(A) == e(q) * Bc + e(r), z3.If(r < 0, -e(r), e(r)) < abs(b), z3.Or(r == 0, (r < 0) == (A < 0))))
+        else:
+            e = lambda v: z3.ZeroExt(x, v)
+            Bc = z3.BitVecVal(b, w + x)
+            s.assume(z3.And(e(A) == e(q) * Bc + e(r), z3.ULT(r, z3.BitVecVal(b, w))))
+        cache[ck] = (A, q, r)
+        return q, r
 
     def bool_binop(s, op, a, b):
         if not is_sym(a) and not is_sym(b):
@@ -771,7 +802,7 @@ class Interp:
                 if len(cands) == 1: return s.const(s.prog.consts[cands[0]])
                 fc = [k for k in s.funcs if k.split('::')[-1] == last and not s.funcs[k].params]
                 if len(fc) == 1: return s.call(fc[0], [])
-            m = re.fullmatch(r'core::num::<impl (\w+)>::(MAX|MIN)', n)
+            m = re.fullmatch(r'core::num::<impl (\w+)>::(MAX|MIN)', n) or re.fullmatch(r'([iu](?:8|16|32|64|128|size))::(MAX|MIN)', n)
             if m:
                 w, sg = INT_TYPES[m.group(1)]
                 if m.group(2) == 'MAX': return (1 << (w - sg)) - 1
@@ -889,11 +920,14 @@ class Interp:
             p = re.sub(r'::<[^<>]*(?:<[^<>]*(?:<[^<>]*>[^<>]*)*>[^<>]*)*>', '', p)
             p = re.sub(r'<[^<>]*(?:<[^<>]*(?:<[^<>]*>[^<>]*)*>[^<>]*)*>$', '', p)
             info = None
-            if '::' in p:
+            if p in ('Less', 'Equal', 'Greater'):          # std::cmp::Ordering variants are printed without their path
+                info = ('Ordering', {'Less': -1, 'Equal': 0, 'Greater': 1}[p])
+            elif '::' in p:
                 head, _, var = p.rpartition('::')
                 en = s.prog.enum_of(head)
                 if en is not None and var in s.prog.enums[en]:
                     info = (en.split('::')[-1] if en.split('::')[-1] not in s.prog.ambiguous else en, s.prog.enums[en].index(var))
+                    if en == 'Ordering': info = ('Ordering', info[1] - 1)      # discriminants -1, 0, 1
             if info is None:
                 en = s.prog.enum_of(p)
                 if en is not None and False:
@@ -1182,6 +1216,7 @@ class Interp:
                 if k in s.prog.index: return s.call(s.prog.index[k], args)
             if tgt == ty and not is_ref: return v0
             if tgt == 'Vec' and ty == 'list': return v0
+            if tgt == 'BigInt' and ty == 'Big' and not is_ref: return v0
             if tgt == 'String' and ty in ('&str', 'String'):
                 from .models_core import as_str
                 return StrObj(list(as_str(s, v0).chars()))
